@@ -3,8 +3,13 @@
 package ledger
 
 import (
+	"fmt"
+
 	lru "github.com/hashicorp/golang-lru"
+	"github.com/meshplus/bitxhub-kit/storage/blockfile"
 	"github.com/meshplus/bitxhub-kit/types"
+	"github.com/meshplus/bitxhub-model/pb"
+	ethledger "github.com/meshplus/eth-kit/ledger"
 )
 
 // VerifEvict drops one entry of the account cache (the eviction oracle of the model:
@@ -34,3 +39,21 @@ func VerifJournalRange(l *SimpleLedger) (uint64, uint64) {
 }
 
 func VerifPrevRoot(l *SimpleLedger) *types.Hash { return l.prevJnlHash }
+
+// VerifReceiptsAt: the receipts stored for a height, in block order (GetReceipt finds a receipt through the transaction-hash index,
+// which names one position per hash: a block that carries the same transaction twice needs the list itself)
+func VerifReceiptsAt(cl ethledger.ChainLedger, h uint64) ([]*pb.Receipt, error) {
+	l, ok := cl.(*ChainLedgerImpl)
+	if !ok {
+		return nil, fmt.Errorf("not a ChainLedgerImpl")
+	}
+	rsBytes, err := l.bf.Get(blockfile.BlockFileReceiptTable, h)
+	if err != nil {
+		return nil, err
+	}
+	rs := &pb.Receipts{}
+	if err := rs.Unmarshal(rsBytes); err != nil {
+		return nil, err
+	}
+	return rs.Receipts, nil
+}
